@@ -29,7 +29,9 @@ open HidVerif
 inductive Val | num (v : Nat) | str (bs : List Nat) | arr (id : Nat) | unit | undef
   deriving Repr, Inhabited, BEq
 
-abbrev Scope := List (String × Val)
+/-- a scope maps names to variable cells (addresses into `Cfg.cells`), so that restoring an
+environment — on entering a stop handler — keeps the values the try body assigned -/
+abbrev Scope := List (String × Nat)
 
 inductive Unw | brk | cont | ret (v : Val)
   deriving Repr, Inhabited
@@ -78,6 +80,7 @@ structure Cfg where
   env : List Scope := []
   kont : List Frame := []
   store : Array (Array Val) := #[]
+  cells : Array Val := #[]
   globals : Scope := []
   mode : Option Snap := none      -- `none`: defeat is real
   deriving Inhabited
@@ -98,33 +101,30 @@ def elBytes (E : Env) (el : Ty) (n : Nat) : Nat :=
   match el with | .bool => (n + 7) / 8 | .byte => n | _ => n * E.w
 end Env
 
-def lookupScopes : List Scope → String → Option Val
+def lookupScopes : List Scope → String → Option Nat
   | [], _ => none
   | s :: ss, n => match s.lookup n with | some v => some v | none => lookupScopes ss n
 
-def updateScope (s : Scope) (n : String) (v : Val) : Scope :=
-  s.map (fun (k, x) => if k == n then (k, v) else (k, x))
-
-def updateScopes : List Scope → String → Val → Option (List Scope)
-  | [], _, _ => none
-  | s :: ss, n, v =>
-    if (s.lookup n).isSome then some (updateScope s n v :: ss)
-    else (updateScopes ss n v).map (s :: ·)
-
-def Cfg.lookup (c : Cfg) (n : String) : Option Val :=
+/-- locals shadow globals -/
+def Cfg.addr (c : Cfg) (n : String) : Option Nat :=
   match lookupScopes c.env n with
-  | some v => some v
+  | some a => some a
   | none => c.globals.lookup n
 
+def Cfg.lookup (c : Cfg) (n : String) : Option Val :=
+  (c.addr n).map (fun a => c.cells.getD a .undef)
+
 def Cfg.assign (c : Cfg) (n : String) (v : Val) : Option Cfg :=
-  match updateScopes c.env n v with
-  | some env => some { c with env := env }
-  | none => if (c.globals.lookup n).isSome then some { c with globals := updateScope c.globals n v } else none
+  (c.addr n).map (fun a => { c with cells := c.cells.setIfInBounds a v })
 
 def Cfg.bind (c : Cfg) (n : String) (v : Val) : Cfg :=
+  let a := c.cells.size
   match c.env with
-  | s :: ss => { c with env := ((n, v) :: s) :: ss }
-  | [] => { c with env := [[(n, v)]] }
+  | s :: ss => { c with env := ((n, a) :: s) :: ss, cells := c.cells.push v }
+  | [] => { c with env := [[(n, a)]], cells := c.cells.push v }
+
+def Cfg.bindAll (c : Cfg) (names : List String) (vals : List Val) : Cfg :=
+  (List.zip names vals).foldl (fun c (n, v) => c.bind n v) { c with env := [] :: c.env }
 
 def decimal (i : Int) : List Nat :=
   let s := toString i.natAbs
@@ -174,8 +174,8 @@ def doCall (E : Env) (c : Cfg) (k : List Frame) (name : String) (ptys : List Ty)
   let go (ctl : Ctl) : St := .next { c with ctl := ctl, kont := k } none
   match findFunc E.prog name ptys with
   | some f =>
-    .next { c with ctl := .exec f.body, env := [List.zip (f.params.map (·.1)) args],
-                   kont := .callRet c.env f.preemptive :: k } none
+    let c' := Cfg.bindAll { c with env := [] } (f.params.map (fun p => p.1)) args
+    .next { c' with ctl := .exec f.body, kont := .callRet c.env f.preemptive :: k } none
   | none =>
     let writeLike (nl : Bool) : St :=
       match ptys, args with
@@ -514,7 +514,7 @@ def initCfg (E : Env) (args : List (List Nat)) : Except String Cfg := do
   let mut c : Cfg := { ctl := .done }
   for g in E.prog.globals do
     match constVal E c g.init with
-    | some (c', v) => c := { c' with globals := c'.globals ++ [(g.name, v)] }
+    | some (c', v) => c := { c' with globals := c'.globals ++ [(g.name, c'.cells.size)], cells := c'.cells.push v }
     | none => pure ()   -- not a compile-time constant: the compiler rejects any use of it
   match E.prog.funcs.find? (fun f => f.name == "@is_you") with
   | none => throw "no @is_you"
@@ -558,7 +558,7 @@ def initCfg (E : Env) (args : List (List Nat)) : Except String Cfg := do
         | [] => throw "too few arguments"
       | _ => throw "bad entry parameter type"
     if !rest.isEmpty then throw "too many arguments"
-    pure { c with ctl := .exec f.body, env := [List.zip (f.params.map (·.1)) vals],
-                  kont := [.callRet [] false, .top] }
+    let c' := Cfg.bindAll { c with env := [] } (f.params.map (fun p => p.1)) vals
+    pure { c' with ctl := .exec f.body, kont := [.callRet [] false, .top] }
 
 end HidVerif.Hid
